@@ -22,6 +22,7 @@ EXPLANATION = (
 )
 BOUNDS = {"quick": "pairings: 1..10 chains (tight), 1..7 (uniform); exchanges / scheduling: <=3 chains, <=6 (2 chains) / <=4 (3 chains) scheduling choice points per path (later switches follow the canonical order); advance: all n>=0, swap_interval 1..64",
           "thorough": "4-5 chains for pairing, 2 chains with 10 / 3 chains with 6 scheduling choice points"}
+TECHNIQUE = "symbolic execution of the real ParallelTempering / tempering_process code under an in-process baton scheduler with forked interleavings (z3 per-path queries); advance() arithmetic by AST-to-SMT integer encoding with loop summarisation, decided for all n by z3; counterexamples replayed"
 ASSUMPTIONS = [
     "pipes are FIFO and reliable, Event.set is visible to later is_set, join returns when the worker function returns",
     "outside: real OS processes, pickling of chains, poll time-outs, OS scheduler fairness, ParallelTempering.run_for's clock loop",
